@@ -479,6 +479,9 @@ def current_operands(ctx, rule, only=None):
 
 
 def run(ctx):
+    from .configtime import declarations_do_not_read_state as _decl_state
+    _decl_state(ctx, 'C08.R7', ('Recipe.transfer', 'Recipe.create_solution', 'Recipe.create_solution_from', 'Recipe.remove',
+                                'Recipe.dilute', 'Recipe.fill_to'))
     from .configtime import no_identity_test_against_literals as _no_is_literal
     _no_is_literal(ctx, 'C08.R4', classes=('Recipe', 'RecipeStep'))
     from .configtime import recorded_operands_not_mutated as _rec_inplace
